@@ -16,7 +16,8 @@ LEVEL_TEXT = ("Symbolic execution of the real operator methods: the exponent of 
               "otherwise' for ALL k. Unary/binary operators are compared with the constructor-built twin by the library's == (both directions), by class "
               "and by printed form, for operands of every constructor kind including a symbolic constant (so that no value-dependent simplification or "
               "reordering can hide); non-expression operands on either side must raise.")
-BOUNDS = {"quick": {"operands": "20 operand expressions (every constructor kind, constants 0/1/2/3.0 and a symbolic constant) in all pairs for + - * / ** and unary -; "
+BOUNDS = {"quick": {"operands": "20 operand expressions (every constructor kind, constants 0/1/2/3.0 and a symbolic constant) in all pairs for + - * / ** and unary -, plus 6 USED "
+                    "operands (operands of expressions that were differentiated early, simplified three times, hashed, printed and evaluated before); "
                     "exponent: all integers and all reals (symbolic) + 14 concrete spellings; 9 operator sites x 11 foreign objects",
                     "outside": "operands outside the list (the operator methods do not inspect their operands beyond isinstance)"}}
 BOUNDS["thorough"] = BOUNDS["quick"]
@@ -24,6 +25,7 @@ ASSUMPTIONS = []
 OPTS = {"quick": {"timeout_ms": 10000}, "thorough": {"timeout_ms": 30000}}
 
 OPERANDS = ["x", "y", "c", "zero", "one", "two", "three_f", "neg", "sum", "sum0", "prod", "rec", "pw", "rt", "ex", "lg", "sin", "min", "div", "pwr"]
+USED = ["used_neg", "used_neg2", "used_sum", "used_pw", "used_rec", "used_prod"]     # operands with a history (harness.modes.operand_exprs)
 SITES_OP = ["x+f", "f+x", "x-f", "f-x", "x*f", "f*x", "x/f", "f/x", "f**x"]
 EXPS = [1, 2, 7, 1.0, 3.0, 12.0, 2.5, 0.5, 0, -1, -2.0, 0.0, "None", "'2'", "()", "[]", "Point"]
 
@@ -36,13 +38,24 @@ def jobs(tier, seed):
     for a, b in pairs:
         for op in ("add", "sub", "mul", "div", "pow"):
             js.append({"mode": "operators", "op": op, "a": a, "b": b})
-    for a in OPERANDS:
+    for a in OPERANDS + USED:
         js.append({"mode": "operators", "op": "neg", "a": a, "b": a})
+    for a in USED:
+        for b in USED + ["x", "two", "sum"]:
+            for op in ("add", "sub", "mul", "div", "pow"):
+                js.append({"mode": "operators", "op": op, "a": a, "b": b})
+                if b not in USED:
+                    js.append({"mode": "operators", "op": op, "a": b, "b": a})
     for site in SITES_OP:
         for f in modes.FOREIGN:
             js.append({"mode": "reject", "site": site, "foreign": f})
     for e in EXPS:
         js.append({"mode": "powexp", "exp": e})
+    # the same operand / exponent is offered again: the verdict must not depend on earlier attempts
+    js += [{"mode": "param", "what": "pow", "sort": "int", "attempts": 3}, {"mode": "param", "what": "pow", "sort": "real", "attempts": 3}]
+    for site in SITES_OP:
+        for f in modes.FOREIGN[::2]:
+            js.append({"mode": "reject", "site": site, "foreign": f, "attempts": 2})
     js.append({"mode": "param", "what": "pow", "sort": "real", "twin": "accept-all"})
     js.append({"mode": "operators", "op": "add", "a": "x", "b": "y", "twin": "wrong-class"})
     for i, j in enumerate(js):
